@@ -13,6 +13,11 @@ Streams (all from chk.rng):
      `set()` that wakes the writer; with and without other logic (counter, synchronous read port) in the written
      domain.  Expected values are the array semantics computed by the harness (a list of rows); every order of the
      ready processes must give exactly that trace.
+  P  (implementation against an event-level specification evaluated by the harness) multi-shot waits
+     (`async for`) on trigger combinations that contain a delay, in testbenches and added processes whose loop body
+     takes simulated time (less than, exactly, more than the delay; until the next tick): wake-ups at start + k*T
+     exactly, BrokenTrigger when the combination fires again during the body; under every order of the ready processes
+  Q  Period division against exact rationals (all fractional parts), default phase of clocks with odd periods
 Every scenario of A and B is run on the real engine under the native order, the canonical order, its reverse and
 N seeded shuffles of `_processes`, `pending` and `_active_triggers` (re-drawn at every iteration); all observation
 traces must be identical. The trace is then compared with the Lean model (run under two opposite schedules) and,
@@ -1221,6 +1226,477 @@ def judge_memwrite(chk, case):
 
 
 # ------------------------------------------------------------------------------------------------
+# stream P (implementation against an event-level specification evaluated here): MULTI-SHOT waits on trigger
+# combinations that contain a delay - `async for ... in ctx.delay(T)[.sample(ctr)]`,
+# `ctx.edge(clk, pol).delay(T)`, `ctx.changed(clk).delay(T)` - in testbenches and added processes whose loop BODY
+# itself takes simulated time (`await ctx.delay(t)`, `await ctx.tick()`), shorter than, equal to and longer than T.
+#
+# What the documentation of TriggerCombination (sim/_async.py) and the engine (pysim._PyTriggerState) prescribe:
+#   * the delay of the combination starts when the wait is created and restarts at the instant the combination
+#     fires (for whichever of its triggers); the body does not postpone it: a delay-only loop wakes at
+#     start + T, start + 2T, ... exactly ("delays expire after exactly the requested interval");
+#   * a multi-shot wait keeps observing its triggers while the body runs: when the combination is activated again
+#     before the next iteration (the delay expires, or the edge occurs, at an instant t with wake < t <= end of
+#     the body), the next iteration raises BrokenTrigger at the end of the body;
+#   * values sampled at a wake-up caused by a delay that coincides with a clock edge are those from before the edge;
+#     a testbench resumed at an instant sees the registers after every edge of that instant.
+# Instants at which the outcome depends on more than that (an added process that starts waiting for an edge in the
+# very delta cycle in which the edge is committed; the delay and the edge of one combination at the same instant)
+# are not generated: `periodic_expected` returns None and the scenario is drawn again (counted).
+
+def _periodic_clock(scn, horizon):
+    """[(time, level after the toggle)] of the added clock up to the horizon"""
+    period = scn["period"]
+    phase = round(Fraction(period, 2)) if scn["phase"] is None else scn["phase"]
+    half = period // 2
+    out = []
+    j = 0
+    while phase + j * half <= horizon:
+        out.append((phase + j * half, (j + 1) % 2))
+        j += 1
+    return out
+
+
+def periodic_expected(scn, horizon=None):
+    """per agent: the list of records the agent must log, the last value it sets; then the counter at the bound.
+    None: the scenario contains an instant this specification leaves open."""
+    horizon = scn["bound"] + 4 * scn["period"] + 4 if horizon is None else horizon
+    toggles = _periodic_clock(scn, horizon)
+    active_level = 1 if scn["edge"] == "pos" else 0
+    active = [t for t, lvl in toggles if lvl == active_level]
+    active_set = set(active)
+
+    def n_before(t):
+        return sum(1 for x in active if x < t)
+
+    def n_upto(t):
+        return sum(1 for x in active if x <= t)
+
+    def next_active(t):
+        return next(x for x in active if x > t)
+
+    def level_before(t):
+        """the clock level just before instant t"""
+        lv = 0
+        for x, l in toggles:
+            if x < t:
+                lv = l
+        return lv
+
+    out = []
+    for ag in scn["agents"]:
+        tb, T, ek, n = ag["tb"], ag["T"], ag["edge"], len(ag["bodies"])
+        if ek is None:
+            match = []
+        elif ek[0] == "edge":
+            match = [(t, l) for t, l in toggles if l == ek[1]]
+        else:
+            match = list(toggles)
+        match_set = {t for t, _l in match}
+
+        def next_match(t):
+            return next(((x, l) for x, l in match if x > t), (None, None))
+
+        log = []
+        last_set = None
+        now = ag["start"]
+        if ek is not None and not tb and now in match_set:
+            return None                                # a process that starts waiting in the delta in which the edge is committed
+        armed = now
+        ended = False
+        for k in range(n):
+            deadline = armed + T
+            e, lvl = next_match(now) if ek is not None else (None, None)
+            if e is not None and e == deadline:
+                return None                            # delay and edge of one combination at the same instant
+            if e is not None and e < deadline:
+                w, by_delay = e, False
+            else:
+                w, by_delay = deadline, True
+            if w > scn["bound"] - 1:
+                return None
+            if ek is None:
+                res = [1]
+            elif ek[0] == "edge":
+                res = [int(not by_delay), int(by_delay)]
+            else:
+                res = [level_before(w) if by_delay else lvl, int(by_delay)]
+            if ag["sample"]:
+                res.append(n_before(w) % 256)
+            log.append(["wake", k, w, res])
+            armed = now = w
+            for j, st in enumerate(ag["bodies"][k]):
+                if st[0] == "delay":
+                    now += st[1]
+                    log.append(["step", k, j, now])
+                elif st[0] == "tick":
+                    if not tb and now in active_set:
+                        return None                    # a process awaiting tick() in the delta of the edge
+                    now = next_active(now)
+                    log.append(["step", k, j, now])
+                elif st[0] == "get":
+                    log.append(["get", k, j, now, n_upto(now) % 256])
+                else:
+                    last_set = st[1]
+            if now > scn["bound"] - 1:
+                return None
+            broken = False
+            if now > w:
+                if armed + T <= now:
+                    broken = True
+                if ek is not None:
+                    m, _l = next_match(w)
+                    if m is not None and m < now:
+                        broken = True
+                    elif m is not None and m == now:
+                        if not tb:
+                            return None                # the process re-awaits in the delta in which the edge is committed
+                        broken = True
+            if broken and k < n - 1:
+                log.append(["broken", k + 1, now])
+                ended = True
+                break
+        if not ended:
+            log.append(["done", now])
+        out.append([log, last_set])
+    return out, n_before(scn["bound"]) % 256
+
+
+def gen_periodic(rng, stats):
+    """abstract scenario (plain data: stored in the replay)"""
+    for _try in range(200):
+        scale = rng.choice([1, 1, 1, 1000, 10 ** 6 + 1])
+        period = rng.randint(2, 30) * scale + rng.choice([0, 0, 1])
+        scn = {"period": period, "phase": None if rng.random() < 0.25 else rng.randint(1, 2 * period),
+               "edge": rng.choice(["pos", "pos", "neg"]), "agents": []}
+        end = 0
+        half = period // 2
+        for _a in range(rng.choice([1, 1, 2, 2, 3])):
+            r = rng.random()
+            ek = None if r < 0.55 else ("edge", rng.randint(0, 1)) if r < 0.85 else ("changed",)
+            if ek is None:
+                T = rng.choice([rng.randint(1, 6), rng.randint(2, 40), rng.randint(2, 40)]) * scale + rng.choice([0, 0, 1])
+            else:
+                # comparable with the clock, so that both the delay and the edge wake the loop
+                T = max(1, rng.randint(max(1, period // 4), 2 * period) + rng.choice([0, 0, 1, -1]))
+            tb = rng.random() < 0.6
+            ag = {"tb": tb, "T": T, "edge": ek, "sample": rng.random() < 0.5,
+                  "start": rng.choice([0, 0, rng.randint(1, 2 * T)]) if ek is None or ek[0] != "changed" else rng.randint(1, 2 * T),
+                  "bodies": [], "classes": []}
+            n = rng.randint(2, 6)
+            # the first body during which the combination fires again (it ends the loop with BrokenTrigger), if any
+            bad_at = None if rng.random() < 0.45 else rng.randrange(n)
+            room = T if ek is None else min(T, half if ek[0] == "changed" else period)
+            span = ag["start"]
+            for k in range(n):
+                if k == bad_at:
+                    cls = rng.choice(["equal", "long", "long"])
+                else:
+                    cls = rng.choice(["zero", "short", "short", "short", "short", "short", "tick", "tick"] if k else
+                                     ["short", "short", "short", "short", "tick"])
+                if room <= 1 and cls == "short":
+                    cls = "zero"
+                if cls == "zero":
+                    total = 0
+                elif cls == "short":
+                    total = rng.randint(1, room - 1)
+                elif cls == "equal":
+                    total = T
+                elif cls == "long":
+                    total = T + rng.randint(1, 2 * T)
+                body = []
+                if cls == "tick":
+                    body.append(("tick",))
+                    if rng.random() < 0.3:
+                        body.append(("delay", rng.randint(1, max(1, T // 2))))
+                    if rng.random() < 0.15:
+                        body.append(("tick",))
+                elif total:
+                    parts = []
+                    left = total
+                    while left > 0:
+                        p = left if rng.random() < 0.6 else rng.randint(1, left)
+                        parts.append(p)
+                        left -= p
+                    body = [("delay", p) for p in parts]
+                if rng.random() < 0.6:
+                    body.insert(rng.randint(0, len(body)), ("set", rng.randint(0, 255)))
+                if tb and rng.random() < 0.5:
+                    body.insert(rng.randint(0, len(body)), ("get",))
+                ag["bodies"].append(body)
+                ag["classes"].append(cls)
+                span += T + sum(st[1] for st in body if st[0] == "delay") + sum(2 * period for st in body if st[0] == "tick")
+            end = max(end, span)
+            scn["agents"].append(ag)
+        scn["bound"] = end + 2 * period + 3
+        if periodic_expected(scn) is not None:
+            return scn
+        stats["redrawn"] = stats.get("redrawn", 0) + 1
+    raise RuntimeError("no periodic scenario without an open instant in 200 draws")
+
+
+def run_periodic(scn, mode, oseed):
+    from amaranth.hdl import Module, Signal, ClockDomain, Period
+    from amaranth.sim import Simulator, BrokenTrigger
+    m = Module()
+    cd = ClockDomain("sync", clk_edge=scn["edge"], reset_less=True)
+    m.domains += cd
+    ctr = Signal(8, name="ctr")
+    m.d.sync += ctr.eq(ctr + 1)
+    outs = [Signal(8, name=f"o{i}") for i in range(len(scn["agents"]))]
+    sim = Simulator(m)
+    eng = sim._engine
+    added = []
+    before = {id(p) for p in eng._processes}
+    sim.add_clock(Period(fs=scn["period"]), phase=None if scn["phase"] is None else Period(fs=scn["phase"]), domain=cd)
+    added += [p for p in eng._processes if id(p) not in before]
+    logs = [[] for _ in scn["agents"]]
+
+    def mk(ag, o, log):
+        async def agent(ctx):
+            def now():
+                return ctx.elapsed_time().femtoseconds
+            if ag["start"] > 0:
+                await ctx.delay(Period(fs=ag["start"]))
+            ek = ag["edge"]
+            if ek is None:
+                trig = ctx.delay(Period(fs=ag["T"]))
+            elif ek[0] == "edge":
+                trig = ctx.edge(cd.clk, ek[1]).delay(Period(fs=ag["T"]))
+            else:
+                trig = ctx.changed(cd.clk).delay(Period(fs=ag["T"]))
+            if ag["sample"]:
+                trig = trig.sample(ctr)
+            k = 0
+            try:
+                async for res in trig:
+                    log.append(["wake", k, now(), [int(x) for x in res]])
+                    for j, st in enumerate(ag["bodies"][k]):
+                        if st[0] == "delay":
+                            await ctx.delay(Period(fs=st[1]))
+                            log.append(["step", k, j, now()])
+                        elif st[0] == "tick":
+                            await ctx.tick(cd)
+                            log.append(["step", k, j, now()])
+                        elif st[0] == "get":
+                            log.append(["get", k, j, now(), int(ctx.get(ctr))])
+                        else:
+                            ctx.set(o, st[1])
+                    k += 1
+                    if k == len(ag["bodies"]):
+                        break
+            except BrokenTrigger:
+                log.append(["broken", k, now()])
+                return
+            log.append(["done", now()])
+        return agent
+
+    for ag, o, log in zip(scn["agents"], outs, logs):
+        if ag["tb"]:
+            sim.add_testbench(mk(ag, o, log))
+        else:
+            before = {id(p) for p in eng._processes}
+            sim.add_process(mk(ag, o, log))
+            added += [p for p in eng._processes if id(p) not in before]
+    install_order(sim, added, mode, oseed)
+    try:
+        sim.run_until(Period(fs=scn["bound"]))
+        return ("ok", logs, [int(eng.get_value(o)) for o in outs], int(eng.get_value(ctr)))
+    except Hang:
+        return ("hang", logs, [], None)
+    except Exception as e:
+        return ("raise:" + errkind(e) + ":" + repr(e)[:120], logs, [], None)
+
+
+def periodic_job(args):
+    seed, n, n_perm = args
+    rng = random.Random(seed)
+    out = []
+    for k in range(n):
+        case = {"seed": seed, "index": k, "per_job": n}
+        try:
+            stats = {}
+            scn = gen_periodic(rng, stats)
+            case["scn"] = scn
+            case["redrawn"] = stats.get("redrawn", 0)
+            exp, ctr_end = periodic_expected(scn)
+            case["expected"] = exp
+            case["ctr_end"] = ctr_end
+            orders = [("sorted", 0), ("native", 0), ("reverse", 0)] + [("shuffle", rng.getrandbits(32)) for _ in range(n_perm)]
+            case["runs"] = []
+            for mode, oseed in orders:
+                status, logs, finals, ctr = run_periodic(scn, mode, oseed)
+                case["runs"].append(((mode, oseed), status, logs, finals, ctr))
+        except Exception:
+            import traceback
+            case["harness_error"] = traceback.format_exc()[-1500:]
+        out.append(case)
+    return out
+
+
+def _periodic_trigger_name(ag):
+    ek = ag["edge"]
+    base = "delay(T)" if ek is None else f"edge(clk,{ek[1]}).delay(T)" if ek[0] == "edge" else "changed(clk).delay(T)"
+    return base + (".sample(ctr)" if ag["sample"] else "")
+
+
+def judge_periodic(chk, case):
+    base = {"stream": "periodic", "job_seed": case["seed"], "index": case["index"], "per_job": case["per_job"],
+            "scenario": case.get("scn")}
+    if "harness_error" in case:
+        chk.not_shown("the harness could not run a periodic-wait scenario", dict(base, error=case["harness_error"]))
+        return
+    scn, runs, exp = case["scn"], case["runs"], case["expected"]
+    chk.count(len(runs))
+    chk.hist("periodic: scenarios drawn again (instant outside the event-level specification)", case["redrawn"] > 0)
+    chk.hist("periodic: agents per scenario", len(scn["agents"]))
+    for ag, (log, _last) in zip(scn["agents"], exp):
+        chk.hist("periodic: multi-shot wait in", "testbench" if ag["tb"] else "added process")
+        chk.hist("periodic: trigger combination", _periodic_trigger_name(ag))
+        nwake = sum(1 for r in log if r[0] == "wake")
+        for c in ag["classes"][:nwake]:
+            chk.hist("periodic: loop body takes", {"zero": "no time", "short": "less than T", "equal": "exactly T",
+                                                   "long": "more than T", "tick": "until the next tick()"}[c])
+        chk.hist("periodic: loop ends with", "BrokenTrigger" if log[-1][0] == "broken" else "break after the last iteration")
+        chk.hist("periodic: wake-ups after a body that took time",
+                 sum(1 for a, b in zip(log, log[1:]) if b[0] == "wake" and a[0] == "step"))
+    (ref_order, ref_status, ref_logs, ref_finals, ref_ctr) = runs[0]
+    for order, status, logs, _f, _c in runs:
+        if status != "ok":
+            chk.violation(f"simulating repeated waits on a delay: {status} under order {order}",
+                          dict(base, kind="periodic-status", order=order, logs=logs, classes=[]))
+            return
+    for order, _status, logs, finals, ctr in runs[1:]:
+        if (logs, finals, ctr) != (ref_logs, ref_finals, ref_ctr):
+            chk.violation(f"repeated waits on a delay: the observations depend on the iteration order of the ready processes "
+                          f"({order} differs from {ref_order})",
+                          dict(base, kind="periodic-schedule", order_a=ref_order, order_b=order, logs_a=ref_logs, logs_b=logs,
+                               finals_a=[ref_finals, ref_ctr], finals_b=[finals, ctr], classes=[]))
+            return
+    for i, (ag, (elog, elast), got) in enumerate(zip(scn["agents"], exp, ref_logs)):
+        if got != elog:
+            k = next((j for j, (x, y) in enumerate(zip(got, elog)) if x != y), min(len(got), len(elog)))
+            g, w = (got[k] if k < len(got) else None), (elog[k] if k < len(elog) else None)
+            who = "testbench" if ag["tb"] else "added process"
+            if g and w and g[0] == "wake" and w[0] == "wake" and g[2] != w[2]:
+                what = (f"iteration {w[1]} of `async for ... in {_periodic_trigger_name(ag)}` (T = {ag['T']} fs, loop started at "
+                        f"{ag['start']} fs) in a {who} whose body awaits simulated time resumes at {g[2]} fs; the delay restarts when the "
+                        f"combination fires, so it must resume at {w[2]} fs")
+            elif w and w[0] == "broken" and (not g or g[0] != "broken"):
+                what = (f"`async for ... in {_periodic_trigger_name(ag)}` (T = {ag['T']} fs) in a {who}: the combination is activated "
+                        f"again while the body of iteration {w[1] - 1} is running, the next iteration must raise BrokenTrigger at "
+                        f"{w[2]} fs; got {g}")
+            else:
+                what = (f"`async for ... in {_periodic_trigger_name(ag)}` (T = {ag['T']} fs) in a {who}: record {k} is {g}, "
+                        f"the event-level specification gives {w}")
+            chk.violation(what, dict(base, kind="periodic-spec", agent=i, record=k, impl=got, expected=elog, classes=[]))
+            return
+        elast_v = 0 if elast is None else elast
+        if ref_finals[i] != elast_v:
+            chk.violation(f"the signal set by the body of a repeated wait ends as {ref_finals[i]}, expected {elast_v}",
+                          dict(base, kind="periodic-final", agent=i, impl=ref_finals, classes=[]))
+            return
+    if ref_ctr != case["ctr_end"]:
+        chk.violation(f"the counter of the clocked domain is {ref_ctr} at {scn['bound']} fs, expected {case['ctr_end']}",
+                      dict(base, kind="periodic-counter", classes=[]))
+        return
+    timed = any(a[0] == "step" and b[0] == "wake" for log, _l in exp for a, b in zip(log, log[1:]))
+    chk.distinct(("periodic", repr(scn)), timed or any(log[-1][0] == "broken" for log, _l in exp))
+    if timed:
+        ag, (log, _l) = next((a, e) for a, e in zip(scn["agents"], exp) if any(x[0] == "step" and y[0] == "wake" for x, y in zip(e[0], e[0][1:])))
+        chk.sample({"stream": "periodic", "wait": _periodic_trigger_name(ag), "in": "testbench" if ag["tb"] else "process",
+                    "T": ag["T"], "start": ag["start"], "body_classes": ag["classes"], "records": log[:12]}, limit=8)
+
+
+# ------------------------------------------------------------------------------------------------
+# stream Q: Period division (`Period / number`, `number * Period / number`) against exact rationals - quotients with
+# every fractional part, in particular >= 1/2 - and the default phase (`period / 2`) of clocks whose period is an odd
+# number of femtoseconds, observed through the first toggles.
+
+def perioddiv_job(args):
+    seed, n = args
+    from amaranth.hdl import Module, Signal, ClockDomain, Period
+    from amaranth.sim import Simulator
+    rng = random.Random(seed)
+    out = []
+    for i in range(n):
+        case = {"seed": seed, "index": i}
+        try:
+            if i % 4 == 3:
+                # default phase of an added clock: period / 2 rounded to the nearest femtosecond (ties to even)
+                how = rng.choice(["MHz", "fs-odd", "fs-odd", "kHz"])
+                if how == "fs-odd":
+                    pf = rng.choice([rng.randint(1, 50), rng.randint(1, 10 ** 6), rng.randint(1, 10 ** 10)]) * 2 + 1
+                    period = Period(fs=pf)
+                else:
+                    f = rng.choice([3, 7, 7, 9, 11, 13, 21, 27, 33, 49, 77, rng.randint(1, 999)])
+                    period = Period(**{how: f})
+                    pf = period.femtoseconds
+                m = Module()
+                m.domains.sync = cd = ClockDomain()
+                q = Signal(4)
+                m.d.sync += q.eq(q + 1)
+                sim = Simulator(m)
+                sim.add_clock(period)
+                togs = []
+
+                async def watch(ctx):
+                    for _k in range(3):
+                        await ctx.changed(cd.clk)
+                        togs.append(ctx.elapsed_time().femtoseconds)
+                sim.add_testbench(watch)
+                sim.run()
+                first = round(Fraction(pf, 2))
+                case.update(kind="phase", how=how, period_fs=pf, toggles=togs,
+                            expected=[first, first + pf // 2, first + 2 * (pf // 2)])
+            else:
+                unit = rng.choice(["fs", "fs", "ps", "ns", "ns", "us"])
+                mul = {"fs": 1, "ps": 10 ** 3, "ns": 10 ** 6, "us": 10 ** 9}[unit]
+                v = rng.choice([rng.randint(1, 9), rng.randint(1, 99), rng.randint(1, 10 ** 4)]) if unit != "fs" else \
+                    rng.choice([rng.randint(1, 99), rng.randint(1, 10 ** 6), rng.randint(1, 10 ** 11)])
+                den = rng.choice([2, 3, 3, 4, 6, 7, 7, 9, 11, 12, 13, rng.randint(2, 1000)])
+                k = rng.choice([1, 1, 1, 2, 3, 5, rng.randint(1, 9)])
+                neg = rng.random() < 0.15
+                base = Period(**{unit: v})
+                if neg:
+                    base = -base
+                got = (k * base / den) if k != 1 else (base / den)
+                exact = Fraction((-1 if neg else 1) * k * v * mul, den)
+                case.update(kind="div", expr=f"{'-' if neg else ''}{k} * Period({unit}={v}) / {den}", got=got.femtoseconds,
+                            exact=(exact.numerator, exact.denominator), expected=round(exact),
+                            frac=str(exact - (exact.numerator // exact.denominator)))
+        except Exception as e:
+            import traceback
+            case["error"] = (errkind(e), traceback.format_exc()[-600:])
+        out.append(case)
+    return out
+
+
+def judge_perioddiv(chk, case):
+    if "error" in case:
+        chk.violation(f"Period division stream: raises {case['error'][0]}", dict(case, stream="perioddiv", classes=[]))
+        return
+    chk.count(1)
+    if case["kind"] == "phase":
+        chk.hist("perioddiv: default phase of a clock with an odd period", "period = 3 mod 4 (half rounds up)"
+                 if case["period_fs"] % 4 == 3 else "period = 1 mod 4 (half rounds down)" if case["period_fs"] % 2 else "even period")
+        if case["toggles"] != case["expected"]:
+            chk.violation(f"a clock of {case['period_fs']} fs added without a phase toggles at {case['toggles']}; period / 2 rounded to the "
+                          f"nearest femtosecond gives {case['expected']}", dict(case, stream="perioddiv", classes=[]))
+            return
+        chk.distinct(("perioddiv-phase", case["period_fs"]), case["period_fs"] % 2 == 1)
+        return
+    fr = Fraction(case["frac"])
+    chk.hist("perioddiv: fractional part of the exact quotient",
+             "0" if fr == 0 else "(0, 1/2)" if fr < Fraction(1, 2) else "1/2" if fr == Fraction(1, 2) else "(1/2, 1)")
+    if case["got"] != case["expected"]:
+        chk.violation(f"{case['expr']} = {case['got']} fs; the exact quotient {Fraction(*case['exact'])} rounds to {case['expected']} fs",
+                      dict(case, stream="perioddiv", classes=[]))
+        return
+    chk.distinct(("perioddiv", case["expr"]), fr != 0)
+
+
+# ------------------------------------------------------------------------------------------------
 # judging
 
 def judge_scenario(chk, case, pair):
@@ -1395,6 +1871,8 @@ def run(chk):
     targs = [(rng.getrandbits(48), 40 if quick else 150, EXE) for _ in range(16 if quick else 64)]
     # drawn after the seeds of the older streams, which therefore see the same scenarios as before
     wargs = [(rng.getrandbits(48), 10, n_perm) for _ in range(32 if quick else 240)]
+    pargs = [(rng.getrandbits(48), 10, 4 if quick else 16) for _ in range(32 if quick else 240)]
+    qargs = [(rng.getrandbits(48), 60 if quick else 250) for _ in range(16 if quick else 64)]
     pair = {}
     with ProcessPoolExecutor(max_workers=workers) as ex:
         for job in ex.map(scenario_job, args, chunksize=1):
@@ -1408,6 +1886,12 @@ def run(chk):
         for out in ex.map(memwrite_job, wargs, chunksize=1):
             for c in out:
                 judge_memwrite(chk, c)
+        for out in ex.map(periodic_job, pargs, chunksize=1):
+            for c in out:
+                judge_periodic(chk, c)
+        for out in ex.map(perioddiv_job, qargs, chunksize=1):
+            for c in out:
+                judge_perioddiv(chk, c)
     try:
         chk.extra["hypothesis_witness"] = {
             "what": "memory row written by write ports of two domains at a coincident edge (DisjointWrites does not hold): "
@@ -1432,6 +1916,16 @@ def run(chk):
         "data and all rows are compared with the array semantics computed by the harness; distinct = scenario, non-trivial = some "
         "delta queues two or more rows. "
         "T: Period(fs/ps/ns/us/Hz/kHz/MHz/GHz/arithmetic) vs exact rationals, toggle instants via edge/changed, delay chains, run_until deadlines. "
+        "P (implementation vs an event-level specification evaluated by the harness): 1-3 testbenches / added processes each running "
+        "`async for` over delay(T), delay(T).sample(ctr), edge(clk, pol).delay(T) or changed(clk).delay(T) for 2-6 iterations, next to an "
+        "added clock (period 2..30 fs or scaled, explicit phase >= 1 or default) with a counter; every loop body takes no time, less "
+        "than T, exactly T, more than T (chains of `await ctx.delay`) or runs until the next `await ctx.tick()`, and may set a signal / "
+        "get the counter; logged: elapsed_time() and the trigger's result at every wake-up, the time after every await of the body, "
+        "BrokenTrigger and when it is raised; expected: wake-ups at start + k*T (delay restarts when the combination fires, never "
+        "postponed by the body), BrokenTrigger at the end of a body during which the combination fired again; distinct = scenario, "
+        "non-trivial = some wake-up follows a body that took simulated time, or a loop ends with BrokenTrigger; all orders must agree. "
+        "Q: k * Period(unit=v) / n (n in 2..1000, negative periods too) against the exactly rounded rational, and the first three "
+        "toggles of clocks with odd femtosecond periods (7 MHz, ...) added without a phase. "
         "distinct = distinct request text; non-trivial = at least 3 observations")
     chk.assumptions += [
         "memories are not part of the C08 model (C11 models the write queue); their order-independence is explored on the implementation only (stream M)",
@@ -1442,6 +1936,10 @@ def run(chk):
         "a compiled synchronous process starts from slots[i].next; the model starts from curr (equal at the start of every delta)",
         "DisjointWrites is a hypothesis for user processes (two processes never drive one signal in generated scenarios)",
         "Python's coroutine machinery, BrokenTrigger and VCD writing are not modelled",
+        "stream P compares the implementation with an event-level specification evaluated by the harness in Python (not with the Lean "
+        "engine model, which has no multi-shot waits in testbench scripts); instants it leaves open are not generated: an added process "
+        "that starts waiting for an edge / tick in the delta cycle in which that edge is committed, and the delay and the edge of one "
+        "combination falling on the same instant (coverage.distribution counts the scenarios drawn again); phases and delays are >= 1 fs there",
     ]
 
 
@@ -1465,6 +1963,25 @@ def replay(chk, path):
             bad = bad or status != "ok" or k is not None
         print("replay:", "still failing" if bad else "passes now")
         return common.EXIT_VIOLATION if bad else common.EXIT_OK
+    if rep.get("stream") == "periodic":
+        scn = rep["scenario"]
+        exp, ctr_end = periodic_expected(scn)
+        orders = [tuple(rep[k]) for k in ("order_a", "order_b") if k in rep] or [("sorted", 0), ("reverse", 0)]
+        bad = False
+        for o in orders:
+            status, logs, finals, ctr = run_periodic(scn, o[0], o[1])
+            same = status == "ok" and logs == [e[0] for e in exp] and ctr == ctr_end
+            print("impl", o, status, "= event-level specification" if same else "differs:")
+            if not same:
+                for i, (g, e) in enumerate(zip(logs, exp)):
+                    print("  agent", i, "impl    ", g)
+                    print("  agent", i, "expected", e[0])
+            bad = bad or not same
+        print("replay:", "still failing" if bad else "passes now")
+        return common.EXIT_VIOLATION if bad else common.EXIT_OK
+    if rep.get("stream") == "perioddiv":
+        print("replay: the case carries its data in the file:", {k: rep.get(k) for k in ("expr", "got", "expected", "period_fs", "toggles")})
+        return common.EXIT_OK
     if "job_seed" not in rep or rep.get("index") is None:
         print("replay: not a scenario replay (time-stream cases carry their data in the file)")
         return common.EXIT_OK
